@@ -19,6 +19,10 @@
 //                                                            objective's cost comparison until the better one (B) is through;
 //                                                            then one un-choreographed run, <free> reports per instance (no
 //                                                            handshake, so that TSan sees the accesses as they are)
+//   cfsamplers <instances> <budget> <own_validator 0|1>      real CForest with RRT* instances; the user's sampler allocator holds every
+//                                                            instance but the first inside its (lazy, in-solve) sampler allocation
+//                                                            until the first one has been planning for a while; own_validator=1:
+//                                                            a user motion validator without shared counters
 //   terminate <pollers> <form 0|1|2>                         terminate() from another thread; 0 direct, 1 periodic,
 //                                                            2 periodic with a predicate that is blocked inside its call
 //                                                            while terminate() arrives (handshake)
@@ -824,6 +828,14 @@ namespace
     thread_local int cfRole = -1;
     thread_local bool cfInReport = false;
     double cfCost[2] = {0., 0.};
+    // g++'s TSan pass does not instrument a class-type argument passed by value straight from memory: in
+    // `opt_->isCostBetterThan(cost, bestCost_)` the load of bestCost_ (`movsd 0x168(%r12),%xmm1`) carries no __tsan_read8, so
+    // the library's own comparison read is invisible to the race detector wherever it stands.  The hook therefore reads the
+    // field once itself (instrumented, through the derived class) at the very point of the comparison, on the same thread,
+    // holding exactly the locks the library holds there: ordered by the mutex when the report is a monitor, a reported race
+    // against the other instance's update when the comparison was moved out of the lock.
+    double (*cfPeekFn)() = nullptr;
+    double cfPeekSink = 0;
     unsigned cfFree = 0;  // > 0: un-choreographed run, this many reports per instance
 
     class CfObjective : public ob::PathLengthOptimizationObjective
@@ -832,6 +844,8 @@ namespace
         using ob::PathLengthOptimizationObjective::PathLengthOptimizationObjective;
         bool isCostBetterThan(ob::Cost c1, ob::Cost c2) const override
         {
+            if (cfRole == 0 && cfInReport && cfPeekFn)
+                cfPeekSink = cfPeekFn();
             const bool better = ob::OptimizationObjective::isCostBetterThan(c1, c2);
             // (relaxed on purpose: the choreography must not itself order A's comparison before B's update — then a race
             // detector still sees the two accesses to CForest's field exactly as unordered as the library leaves them)
@@ -850,6 +864,10 @@ namespace
     {
     public:
         using og::CForest::CForest;
+        double peekBestCost()
+        {
+            return bestCost_.value();
+        }
         bool reportInProgress()
         {
             for (int i = 0; i < 4; ++i)  // try_lock may fail spuriously; a held mutex fails every time
@@ -862,6 +880,10 @@ namespace
         }
     };
     ProbedCForest *cfForest = nullptr;
+    double cfPeekImpl()
+    {
+        return cfForest ? cfForest->peekBestCost() : 0.;
+    }
     int cfCount = 0;
 
     class CfReporter : public ob::Planner
@@ -960,6 +982,7 @@ namespace
         unsigned rounds = needN(t, i), freeReports = i < t.size() ? needN(t, i) : 0;
         unsigned long bad = 0, serialised = 0, overtaken = 0;
         std::string firstBad = "-";
+        cfPeekFn = &cfPeekImpl;
         for (unsigned round = 0; round < rounds + (freeReports ? 1 : 0); ++round)
         {
             cfFree = round == rounds ? freeReports : 0;
@@ -1028,6 +1051,139 @@ namespace
         }
         return "cfrace rounds=" + std::to_string(rounds) + " serialised=" + std::to_string(serialised) +
                " overtaken=" + std::to_string(overtaken) + " bad=" + std::to_string(bad) + " first_bad=" + firstBad;
+    }
+
+    // ---------------------------------------------------------------- CForest: lazy sampler allocation vs solution sharing
+    // RRT* allocates its sampler at the start of solve(), i.e. on the worker thread CForest started for it, and the CForest
+    // space wrapper registers it with CForest::addSampler (push_back under addSamplerMutex_).  Another instance that has
+    // already found a solution walks samplers_ in newSolutionFound() WITHOUT that mutex, and calls setStatesToSample() on the
+    // other instances' samplers, whose sample*() test statesToSample_.empty() without statesLock_.
+    // A slow sampler allocator is ordinary user code: here it holds every worker but the first until the first one has made
+    // a few thousand validity calls (so it has found and shared solutions), then lets them register.
+    class PlainMotionValidator : public ob::MotionValidator
+    {
+    public:
+        using ob::MotionValidator::MotionValidator;
+        bool checkMotion(const ob::State *s1, const ob::State *s2) const override
+        {
+            if (!si_->isValid(s2))
+                return false;
+            int nd = si_->getStateSpace()->validSegmentCount(s1, s2);
+            ob::State *test = si_->allocState();
+            bool ok = true;
+            for (int j = 1; j < nd && ok; ++j)
+            {
+                si_->getStateSpace()->interpolate(s1, s2, (double)j / (double)nd, test);
+                ok = si_->isValid(test);
+            }
+            si_->freeState(test);
+            return ok;
+        }
+        bool checkMotion(const ob::State *s1, const ob::State *s2, std::pair<ob::State *, double> &lastValid) const override
+        {
+            int nd = si_->getStateSpace()->validSegmentCount(s1, s2);
+            ob::State *test = si_->allocState();
+            bool ok = true;
+            for (int j = 1; j <= nd && ok; ++j)
+            {
+                si_->getStateSpace()->interpolate(s1, s2, (double)j / (double)nd, test);
+                if (!si_->isValid(test))
+                {
+                    lastValid.second = (double)(j - 1) / (double)nd;
+                    if (lastValid.first)
+                        si_->getStateSpace()->interpolate(s1, s2, lastValid.second, lastValid.first);
+                    ok = false;
+                }
+            }
+            si_->freeState(test);
+            return ok;
+        }
+    };
+
+    // CForest switches its RRT* instances to focused (informed) search, whose sampler takes the space's DEFAULT sampler —
+    // a user sampler allocator is bypassed, so the hook is the space's own allocDefaultStateSampler()
+    class StallSpace : public ob::RealVectorStateSpace
+    {
+    public:
+        using ob::RealVectorStateSpace::RealVectorStateSpace;
+        ob::StateSamplerPtr allocDefaultStateSampler() const override
+        {
+            if (onAlloc)
+                onAlloc();
+            return ob::RealVectorStateSpace::allocDefaultStateSampler();
+        }
+        std::function<void()> onAlloc;
+    };
+
+    std::string opCfSamplers(const std::vector<std::string> &t)
+    {
+        size_t i = 1;
+        unsigned instances = needN(t, i);
+        unsigned long budget = needN(t, i);
+        unsigned ownValidator = needN(t, i);
+        auto space = std::make_shared<StallSpace>(2);
+        space->setBounds(0, 1);
+        std::atomic<unsigned long> validity{0};
+        std::atomic<unsigned> held{0};
+        const std::thread::id mainId = std::this_thread::get_id();
+        std::mutex firstMutex;
+        std::thread::id firstWorker;
+        bool haveFirst = false;
+        space->onAlloc = [&]() {
+            const auto me = std::this_thread::get_id();
+            if (me != mainId)
+            {
+                bool first;
+                {
+                    std::lock_guard<std::mutex> g(firstMutex);
+                    if (!haveFirst)
+                    {
+                        haveFirst = true;
+                        firstWorker = me;
+                    }
+                    first = firstWorker == me;
+                }
+                if (!first)
+                {
+                    ++held;
+                    auto until = std::chrono::steady_clock::now() + std::chrono::seconds(20);  // hang guard only
+                    while (validity.load(std::memory_order_relaxed) < 6000 && std::chrono::steady_clock::now() < until)
+                        std::this_thread::yield();
+                }
+            }
+        };
+        auto si = std::make_shared<ob::SpaceInformation>(space);
+        si->setStateValidityChecker([&validity](const ob::State *st) {
+            validity.fetch_add(1, std::memory_order_relaxed);
+            const auto *v = st->as<ob::RealVectorStateSpace::StateType>()->values;
+            return !(v[0] > 0.45 && v[0] < 0.55 && v[1] < 0.7);
+        });
+        if (ownValidator)
+            si->setMotionValidator(std::make_shared<PlainMotionValidator>(si));
+        si->setStateValidityCheckingResolution(0.02);
+        si->setup();
+        auto pdef = std::make_shared<ob::ProblemDefinition>(si);
+        ob::ScopedState<> s(space), g(space);
+        s[0] = 0.2;
+        s[1] = 0.2;
+        g[0] = 0.8;
+        g[1] = 0.2;
+        pdef->setStartAndGoalStates(s, g, 0.05);
+        auto cf = std::make_shared<og::CForest>(si);
+        cf->setNumThreads(instances);
+        cf->setProblemDefinition(pdef);
+        cf->setup();
+        auto counter = std::make_shared<vp::EvalCounter>();
+        counter->fireAt = budget;
+        ob::PlannerTerminationCondition ptc(
+            [counter] { return counter->evals.fetch_add(1, std::memory_order_relaxed) + 1 > counter->fireAt; });
+        ob::PlannerStatus st = cf->solve(ptc);
+        std::string out = "cfsamplers instances=" + std::to_string(instances) + " own_validator=" + std::to_string(ownValidator) +
+                          " status=" + vp::statusName(st) + " held=" + std::to_string(held.load()) +
+                          " paths_shared=" + cf->getNumPathsShared() + " states_shared=" + cf->getNumStatesShared() +
+                          " nsol=" + std::to_string(pdef->getSolutionCount());
+        cf->clear();
+        return out;
     }
 
     // ---------------------------------------------------------------- logging
@@ -1176,7 +1332,7 @@ namespace
         }
         bool isValid(const ob::State *state) const override
         {
-            ++calls_;
+            calls_.fetch_add(1, std::memory_order_relaxed);  // relaxed: must not order the planner's worker threads
             if (permille_)
             {
                 thread_local XorShift r(seed_ ^ std::hash<std::thread::id>()(std::this_thread::get_id()));
@@ -1281,12 +1437,18 @@ namespace
         pl->setup();
         auto counter = std::make_shared<vp::EvalCounter>();
         counter->fireAt = budget;
-        ob::PlannerTerminationCondition ptc = vp::evalCountPtc(counter);
+        // evaluation-counting condition with a RELAXED counter: the seq_cst `++evals` of vp::evalCountPtc is an
+        // acquire-release operation every worker performs every iteration, i.e. a happens-before edge between all worker
+        // threads all the time, which hides from the race detector every race whose two accesses are an iteration apart
+        ob::PlannerTerminationCondition ptc(
+            [counter] { return counter->evals.fetch_add(1, std::memory_order_relaxed) + 1 > counter->fireAt; });
         ob::PlannerStatus st = pl->solve(ptc);
         std::string out = "planner name=" + name + " threads=" + std::to_string(threads) + " status=" + vp::statusName(st) +
                           " resolution_len=" + vp::bits(space->getLongestValidSegmentLength()) +
                           " checked=" + std::to_string(si->getMotionValidator()->getCheckedMotionCount()) +
                           " validity_calls=" + std::to_string(svc->calls()) + " nsol=" + std::to_string(pdef->getSolutionCount());
+        if (auto *cf = dynamic_cast<og::CForest *>(pl.get()))
+            out += " paths_shared=" + cf->getNumPathsShared() + " states_shared=" + cf->getNumStatesShared();
         ob::PlannerSolution best(nullptr);
         if (pdef->getSolution(best) && best.path_)
         {
@@ -1344,6 +1506,8 @@ int main()
                 out = opSolMix(t);
             else if (t[0] == "solrace")
                 out = opSolRace(t);
+            else if (t[0] == "cfsamplers")
+                out = opCfSamplers(t);
             else if (t[0] == "cfrace")
                 out = opCfRace(t);
             else if (t[0] == "logging")
